@@ -69,10 +69,30 @@ def hasEmptySub : (d : Nat) → T d → Bool
 def partCounts (order : List Nat) (ranks : List (List Nat)) : List Nat :=
   order.map (fun v => (ranks.filter (fun r => r.contains v)).length)
 
-end C06
+/-- `T / parts` on a tensor: the rank is first moved to the top (`swizzleRanks`), the root fiber is split
+    with step `ceil(shape / parts)` (Fiber.__truediv__ with the rank's declared shape `n`) -/
+def tdivOpnd (n : Int) (v : Nat) (parts : Nat) (o : Opnd) : Except String Opnd := do
+  if !o.ids.contains (2 * v) then return o
+  let o1 ← swizzleOpnd ((2 * v) :: o.ids.erase (2 * v)) o
+  tileOpnd n v ((n + (parts : Int) - 1) / (parts : Int)) o1
 
-open C06 in
-def handleC06 (j : Json) : Except String Verdict := do
+/-- the result of one kernel (one stage of a pipeline) -/
+structure StageRes where
+  oom : Bool := false
+  agree : Bool := true
+  spec : Bool := true
+  zr : List Nat := []
+  zm : T zr.length
+  zi : Option (T zr.length) := none
+  expected : List (List Int × Int) := []
+  tags : List String := []
+  why : String := ""
+
+/-- one kernel: parse the program in `j`, run the model pipeline, compare with `j.impl`, evaluate the
+    dense einsum.  An operand marked `"prev": true` is the previous kernel's output: `prevM` (the
+    model's output tree) on the model side, `prevS` (the tree of the previous dense result) on the
+    spec side. -/
+def stage (j : Json) (prevM prevS : Option ((d : Nat) × T d)) : Except String StageRes := do
   let nv ← fNat j "nvars"
   let n ← fNat j "n"
   let order ← (← fArr j "order").mapM (·.getNat?)
@@ -82,6 +102,13 @@ def handleC06 (j : Json) : Except String Verdict := do
     match (← asList e) with
     | [v, s] => pure ((← v.getNat?), (← s.getInt?))
     | _ => throw "C06: tile")
+  -- tilings requested as `T / parts` (the step is then ceil(n / parts))
+  let tdiv ← match (j.getObjVal? "tdiv") with
+    | .ok (Json.arr a) => a.toList.mapM (fun e => do
+        match (← asList e) with
+        | [v, s] => pure ((← v.getNat?), (← s.getNat?))
+        | _ => throw "C06: tdiv")
+    | _ => pure []
   -- coordinate universe: 0..n-1, or the listed coordinates (sparse multi-digit coordinates)
   let U : List Int := match (j.getObjVal? "univ") with
     | .ok (Json.arr a) => a.toList.filterMap (fun x => x.getInt?.toOption)
@@ -89,26 +116,38 @@ def handleC06 (j : Json) : Except String Verdict := do
   let var := (j.getObjVal? "var").toOption.getD Json.null
   let reps := ((var.getObjVal? "reps").toOption.bind (fun x => x.getNat?.toOption)).getD 1
   let okU := U.all (fun c => 0 ≤ c && c < (n : Int)) && sortedB (U.map (fun c => (c, ())))
-  -- original operands
-  let orig ← (← fArr j "ops").mapM (fun o => do
-    let ranks ← (← fArr o "ranks").mapM (·.getNat?)
-    let t ← parseTree ranks.length (← field o "t")
-    mkOpnd (ranks.map (2 * ·)) ranks.length t)
+  -- original operands (model side / spec side)
+  let opsJ ← fArr j "ops"
+  let parseOps (prev : Option ((d : Nat) × T d)) : Except String (List Opnd) :=
+    opsJ.mapM (fun o => do
+      let ranks ← (← fArr o "ranks").mapM (·.getNat?)
+      match (o.getObjVal? "prev"), prev with
+      | .ok (Json.bool true), some ⟨d, t⟩ => mkOpnd (ranks.map (2 * ·)) d t
+      | .ok (Json.bool true), none => throw "C06: no previous stage"
+      | _, _ => do
+        let t ← parseTree ranks.length (← field o "t")
+        mkOpnd (ranks.map (2 * ·)) ranks.length t)
+  let orig ← parseOps prevM
+  let origS ← parseOps prevS
+  let zr0 : List Nat := []
+  let dummy : StageRes := { zr := zr0, zm := (0 : Int) }
   -- model domain: well-formed operands inside the declared shape, a loop order that is a
   -- permutation of the loop variables, every loop variable in some operand, positive steps
   let tiled (v : Nat) : Bool := tiles.any (fun t => t.1 == v)
   let loopVars := (List.range nv).flatMap (fun v => if tiled v then [2 * v + 1, 2 * v] else [2 * v])
   let okOrder := order.length == loopVars.length && loopVars.all (order.contains ·) && order.eraseDups.length == order.length
-  let okOps := orig.all (fun o => wfB o.ids.length o.t && coordsInB U o.ids.length o.t && o.ids.eraseDups.length == o.ids.length
+  let okOps := (orig ++ origS).all (fun o => wfB o.ids.length o.t && coordsInB U o.ids.length o.t && o.ids.eraseDups.length == o.ids.length
     && o.ids.all (fun i => i / 2 < nv))
   let okCover := (List.range nv).all (fun v => orig.any (fun o => o.ids.contains (2 * v)))
-  let okTiles := tiles.all (fun t => t.2 > 0 && t.1 < nv) && (tiles.map (·.1)).eraseDups.length == tiles.length
+  let okTiles := tiles.all (fun t => t.2 > 0 && t.1 < nv) && (tiles.map (·.1)).eraseDups.length == tiles.length &&
+    tdiv.all (fun d => d.2 > 0 && tiles.any (fun t => t.1 == d.1 && t.2 == ((n : Int) + (d.2 : Int) - 1) / (d.2 : Int)))
   if !(okOrder && okOps && okCover && okTiles && okU && (reps == 1 || reps == 2) && out.all (· < nv) && !orig.isEmpty) then
-    return { agree := true, spec := true, tags := ["OUT_OF_MODEL"] }
-  -- model pipeline: tile, swizzle
+    return { dummy with oom := true }
+  -- model pipeline: tile (splitUniform, then the `/` tilings), swizzle
   let prepared ← orig.mapM (fun o => do
-    let o1 ← tiles.foldlM (fun o t => tileOpnd n t.1 t.2 o) o
-    swizzleOpnd (order.filter (o1.ids.contains ·)) o1)
+    let o1 ← (tiles.filter (fun t => !tdiv.any (fun d => d.1 == t.1))).foldlM (fun o t => tileOpnd n t.1 t.2 o) o
+    let o2 ← tdiv.foldlM (fun o d => tdivOpnd n d.1 d.2 o) o1
+    swizzleOpnd (order.filter (o2.ids.contains ·)) o2)
   let zr := order.filter (fun l => out.contains (l / 2))
   let z0 : T zr.length := defaultTree (0 : Int) zr.length
   let zm1 := run style order (prepared.map toCur) zr z0
@@ -118,7 +157,6 @@ def handleC06 (j : Json) : Except String Verdict := do
   let impl ← field j "impl"
   let implOps ← fArr impl "ops"
   let zJ ← field impl "z"
-  let implerr := fStrD j "implerr" ""
   -- the dense result of the ORIGINAL operands, at the output's (tiled) points
   let stepOf (v : Nat) : Int := ((tiles.find? (fun t => t.1 == v)).map (·.2)).getD 1
   let zpt : (Nat → Int) → List Int := fun σ =>
@@ -126,14 +164,14 @@ def handleC06 (j : Json) : Except String Verdict := do
   let vars := (List.range nv).map (2 * ·)
   let σ0 : Nat → Int := fun _ => 0
   let cands := ((sortLex ((assigns U vars).map (fun σ => (zpt σ, ())))).map (·.1)).eraseDups
-  let expected := (denseOn U vars (orig.map toCur) zpt σ0 cands).map (fun pv => (pv.1, pv.2 * (reps : Int)))
-  let cancel := cands.any (fun q => einsum U vars (orig.map toCur) zpt q σ0 == 0 &&
-    (assigns U vars).any (fun σ => zpt σ == q && prodVal (orig.map toCur) σ != 0))
+  let expected := (denseOn U vars (origS.map toCur) zpt σ0 cands).map (fun pv => (pv.1, pv.2 * (reps : Int)))
+  let cancel := cands.any (fun q => einsum U vars (origS.map toCur) zpt q σ0 == 0 &&
+    (assigns U vars).any (fun σ => zpt σ == q && prodVal (origS.map toCur) σ != 0))
   let pc := partCounts order (prepared.map (·.ids))
   let tags := (if expected.isEmpty then [] else ["nonzero"]) ++ (if cancel then ["cancel"] else []) ++
     (if pc.any (· == 2) then ["coiter2"] else []) ++ (if pc.any (· ≥ 3) then ["coiter3"] else []) ++
     (if zr.isEmpty then ["scalar-out"] else ["populate"]) ++
-    (if tiles.isEmpty then [] else ["tiled"]) ++
+    (if tiles.isEmpty then [] else ["tiled"]) ++ (if tdiv.isEmpty then [] else ["tiled-by-truediv"]) ++
     (let has := fun (k : String) => match var.getObjVal? k with
         | .ok (Json.arr a) => a.any (fun x => match x with | Json.arr b => !b.isEmpty | Json.null => false | _ => true)
         | .ok (Json.bool b) => b
@@ -156,9 +194,8 @@ def handleC06 (j : Json) : Except String Verdict := do
     (if prepared.zip orig |>.any (fun p => p.1.ids != p.2.ids && p.1.ids.length == p.2.ids.length) then ["swizzled"] else []) ++
     (if order != loopVars then ["reordered"] else []) ++
     (if !canonicalB (0 : Int) zr.length zm then ["z-residue"] else [])
-  if implerr != "" || zJ.isNull then
-    return { agree := false, spec := false, model := treeToJson zr.length zm, tags,
-             why := s!"the program raised {implerr}" }
+  if zJ.isNull then
+    return { zr := zr, zm := zm, agree := false, spec := false, expected, tags, why := "the program raised" }
   let zi ← parseTree zr.length zJ
   let agreeOps := implOps.length == prepared.length &&
     (implOps.zip prepared).all (fun p => p.1.compress == p.2.json.compress)
@@ -169,7 +206,36 @@ def handleC06 (j : Json) : Except String Verdict := do
     (if !agreeZ then "output tree differs from the model's; " else "") ++
     (if !specContent then "output content is not the non-zero entries of the dense result; " else "") ++
     (if !specWf then "output not well-formed; " else "")
-  pure { agree := agreeOps && agreeZ, spec := specContent && specWf,
-         model := treeToJson zr.length zm, tags, why }
+  pure { zr := zr, zm := zm, zi := some zi, agree := agreeOps && agreeZ, spec := specContent && specWf, expected, tags, why }
+
+end C06
+
+open C06 in
+def handleC06 (j : Json) : Except String Verdict := do
+  let implerr := fStrD j "implerr" ""
+  let r1 ← stage j none none
+  if r1.oom then return { agree := true, spec := true, tags := ["OUT_OF_MODEL"] }
+  let m1 := treeToJson r1.zr.length r1.zm
+  if implerr != "" && r1.zi.isNone then
+    return { agree := false, spec := false, model := m1, tags := r1.tags, why := s!"the program raised {implerr}" }
+  match (j.getObjVal? "then") with
+  | .ok (Json.obj _) =>
+    -- a pipeline: the first kernel's OUTPUT OBJECT is operand 0 of the second kernel.  Model side: the
+    -- model's output tree; spec side: the tree of the first kernel's dense result (built from the content)
+    let j2 ← field j "then"
+    let impl ← field j "impl"
+    let j2 := j2.setObjVal! "impl" ((impl.getObjVal? "then").toOption.getD Json.null)
+    let d := r1.zr.length
+    let specTree : T (0 + d) := rebuild (0 : Int) 0 d r1.expected
+    let prevS : (d : Nat) × T d := ⟨0 + d, specTree⟩
+    let r2 ← stage j2 (some ⟨d, r1.zm⟩) (some prevS)
+    if r2.oom then return { agree := true, spec := true, tags := ["OUT_OF_MODEL"] }
+    let m2 := treeToJson r2.zr.length r2.zm
+    let tags := (r1.tags ++ r2.tags.map (fun t => "k2:" ++ t) ++ ["pipeline"]).eraseDups
+    if implerr != "" && r2.zi.isNone then
+      return { agree := false, spec := false, model := m2, tags, why := s!"the second kernel raised {implerr}" }
+    pure { agree := r1.agree && r2.agree, spec := r1.spec && r2.spec, model := Json.mkObj [("z1", m1), ("z", m2)], tags,
+           why := (if r1.why.isEmpty then "" else "kernel 1: " ++ r1.why) ++ (if r2.why.isEmpty then "" else "kernel 2: " ++ r2.why) }
+  | _ => pure { agree := r1.agree, spec := r1.spec, model := m1, tags := r1.tags, why := r1.why }
 
 end FtDriver
